@@ -67,6 +67,28 @@ def generate(rng, n):
             ops.append([rng.choice(VARIANTS), arch, rng.randrange(len(pool))])
         ver = rng.choice([None, None, "1.2", "1.1", "1.0", "0.9", "1.10", "2.0"])   # None = fresh Images(), version untouched
         cases.append({"version": ver, "compose": valid_compose(rng, R), "pool": pool, "ops": ops})
+    # at scale: one cell that receives many images (distinct disc numbers), and only then the interesting adds
+    for m in (70, 150):
+        base = gen_image(rng, R, small=True, idx=0)
+        base.update({"unified": False, "additional_variants": [], "checksums": {"sha256": "a" * 64}, "arch": "x86_64"})
+        pool = []
+        for i in range(m):
+            o = copy.deepcopy(base)
+            o["path"] = "Server/x86_64/iso/disc-%03d.iso" % ((i * 37) % m)          # not added in path order
+            o["disc_number"] = i + 1
+            o["disc_count"] = m
+            pool.append(o)
+        u1 = copy.deepcopy(base)
+        u1.update({"path": "Server/x86_64/iso/unified-a.iso", "unified": True, "additional_variants": ["Client", "Workstation"], "checksums": {"sha256": "1" * 64}})
+        u2 = copy.deepcopy(u1)
+        u2.update({"path": "Server/x86_64/iso/unified-b.iso", "additional_variants": ["Workstation", "Client"], "checksums": {"sha256": "2" * 64}})
+        clash = copy.deepcopy(pool[3])
+        clash.update({"path": "Server/x86_64/iso/clash.iso", "checksums": {"sha256": "f" * 64}})
+        pool += [u1, u2, clash]
+        ops = [["Server", "x86_64", i] for i in range(m)]
+        ops += [["Server", "x86_64", m], ["Server", "x86_64", m + 1], ["Server", "x86_64", m + 2], ["Server", "src", 5], ["Server", "nosrc", 6],
+                ["Server", "bogus", 7], ["Client", "x86_64", m], ["Client", "x86_64", m + 1]]
+        cases.append({"version": None, "compose": valid_compose(rng, R), "pool": pool, "ops": ops})
     return cases
 
 
